@@ -97,6 +97,7 @@ const (
 	ParseMessageType         byte = 'P'
 	BindMessageType          byte = 'B'
 	ExecuteMessageType       byte = 'E'
+	SyncMessageType          byte = 'S'
 	ErrorResponseType        byte = 'E'
 	ParseCompleteMessageType byte = '1'
 	BindCompleteMessageType  byte = '2'
@@ -405,6 +406,10 @@ func (proxy *PgProxy) handleClientPacket(ctx context.Context, packet *PacketHand
 		// Remember the query to handle future response.
 		queryPacket := newQueryPacket(query)
 		if err = proxy.protocolState.pendingQueryPackets.Add(queryPacket); err != nil {
+			return false, err
+		}
+		// the response to a simple query always ends with ReadyForQuery
+		if err = proxy.protocolState.pendingQueryPackets.Add(newSyncPointPacket()); err != nil {
 			return false, err
 		}
 		return false, nil
@@ -980,7 +985,7 @@ func (proxy *PgProxy) handleQueryDataPacket(ctx context.Context, packet *PacketH
 		return err
 	}
 
-	if pendingPacket == nil {
+	if pendingPacket == nil || pendingPacket.(queryPacket).syncPoint {
 		logger.WithField(logging.FieldKeyEventCode, logging.EventCodeErrorCodingPostgresqlCantParseColumnsDescription).
 			Warnln("nil pendingPacket in handleQueryDataPacket: potential Multi-Statement query not supported by Acra")
 		return nil
